@@ -26,7 +26,11 @@ SIM = {
     "stm8": ("ld A, #$%02x", 8, r" A=0x([0-9a-f]{2}) ", r" PC=0x([0-9a-f]+)", 2),
     "1802": ("ldi 0x%02x", 8, r"\| D = ([0-9a-f]{2})", r" PC = ([0-9a-f]+)", 2),
     "65816": ("lda #0x%02x", 8, r" A=0x00([0-9a-f]{2}) ", r" PC=0x([0-9a-f]+)", 2),
+    "mips": ("li $t0, 0x%04x", 16, r"\$t0: 0x([0-9a-f]{8})", r" PC: 0x([0-9a-f]+)", 4),
 }
+
+# MIPS loads relative to a base register: mnemonic, width, signed
+MIPS_LOADS = [("lbu", 1, False), ("lhu", 2, False), ("lb", 1, True), ("lh", 2, True), ("lw", 4, False)]
 
 # load-from-memory templates (data address) for "what the simulator fetches is what write* put there"
 SIMF = {
@@ -34,6 +38,15 @@ SIMF = {
     "6502": [("lda 0x%04x", 8)],
     "z80": [("ld a, (0x%04x)", 8)],
 }
+
+def model_plan_addrs(plan, bpa):
+    """rough size of the image a plan builds (keeps the whole-image disasm check to small images)"""
+    n = len(plan["load"]["data"]) // 2 if plan["load"] else 0
+    for op in plan["ops"]:
+        if op["op"] == "write":
+            n += op["width"] * len(op["vals"])
+    return range(n)
+
 
 PROMPT = re.compile(r"^(stopped|running|asm)> ?(.*)$")
 
@@ -92,6 +105,8 @@ class C19(Engine):
         info = progs.cpu_info(cpu)
         bpa, align = info["bpa"], info["align"]
         base = rng.pick([0, 0x100, 0x200, 0x1000, 0xf800, 0xff00]) if rng.chance(4, 5) else rng.pick([0x10000, 0xfffe0, 0xfffff0 // bpa])
+        if cpu == "mips" and rng.chance(1, 4):
+            base = rng.pick([0x9d000000, 0x80001000, 0xbfc00000, 0x7ffff000])      # kseg0/kseg1 flash and RAM of a PIC32/MIPS part
         plan = {"cpu": cpu, "load": None, "ops": [], "env": {"heap_fill": rng.below(4), "heap_seed": rng.u64(),
                                                              "stack_fill": rng.below(4), "stack_seed": rng.u64()}}
         if rng.chance(1, 2):
@@ -163,7 +178,12 @@ class C19(Engine):
             elif k == 15 and cpu in SIM:
                 tmpl, bits, rre, pcre, ilen = SIM[cpu]
                 a = (base & 0x3fff) + 0x300 + rng.below(0x20) * max(align, 2) // bpa
-                if cpu in SIMF and rng.chance(1, 2):
+                if cpu == "mips" and rng.chance(1, 2):
+                    mn, wd, sg = rng.pick(MIPS_LOADS)
+                    off = rng.pick([-4, -8, -32768, -2 if wd <= 2 else -4, -1 if wd == 1 else -4, 0, 4, 32764])
+                    d = (a & 0xffff0000) + 0x8000 + 4 * rng.below(64)
+                    plan["ops"].append({"op": "simstep", "addr": a, "imm": 0, "rel": [mn, wd, sg, off, d, list(rng.bytes(4))]})
+                elif cpu in SIMF and rng.chance(1, 2):
                     f = rng.below(len(SIMF[cpu]))
                     d = 0x240 + 2 * rng.below(32) + (a & 0x3000)
                     plan["ops"].append({"op": "simstep", "addr": a, "imm": rng.below(1 << SIMF[cpu][f][1]), "fetch": f, "daddr": d})
@@ -242,6 +262,9 @@ class C19(Engine):
             if op["op"] == "simstep":
                 tmpl = SIM[cpu][0]
                 src = ".%s\n.org 0\n  %s\n" % (cpu, tmpl % op["imm"])
+                if "rel" in op:
+                    mn, wd, sg, off, d, bs = op["rel"]
+                    src = ".%s\n.org 0x%x\n  %s $t0, %d($t2)\n" % (cpu, op["addr"], mn, off)
                 if "fetch" in op:
                     # position dependent (symbolic mode): assembled where it will be placed
                     src = ".%s\n.org 0x%x\n  %s\n" % (cpu, op["addr"], SIMF[cpu][op["fetch"]][0] % op["daddr"])
@@ -264,7 +287,10 @@ class C19(Engine):
             for j in range(n):
                 touched.add(((addr + j) & 0xffffffff) >> 8)
 
+        asm_seen = [False]
         for i, op in enumerate(plan["ops"]):
+            if op["op"] == "asm":
+                asm_seen[0] = True
             if op["op"] == "write":
                 cmd = {1: "write", 2: "write16", 4: "write32"}[op["width"]]
                 a_text, a = op["addr"]
@@ -307,8 +333,20 @@ class C19(Engine):
             elif op["op"] == "simstep":
                 if i not in sim_bytes:
                     continue
+                mark, mark_e = len(console), len(expect)
                 blob = sim_bytes[i]
                 a = op["addr"]
+                if "rel" in op:
+                    mn, wd, sg, off, d, bs = op["rel"]
+                    console.append("write 0x%x %s" % (d, " ".join("0x%02x" % b for b in bs)))
+                    expect.append(("write", (1, d, list(bs))))
+                    touch(d * bpa, 4)
+                    console.append("set $t2=0x%x" % ((d - off) & 0xffffffff))
+                    expect.append(("none", None))
+                    v = int.from_bytes(bytes(bs[:wd]), "big" if big else "little")
+                    if sg and v & (1 << (8 * wd - 1)):
+                        v |= 0xffffffff & ~((1 << (8 * wd)) - 1)
+                    op = dict(op, imm=v)
                 if "fetch" in op:
                     w = 2 if SIMF[cpu][op["fetch"]][1] == 16 else 1
                     console.append("%s 0x%x 0x%x" % ("write16" if w == 2 else "write", op["daddr"], op["imm"]))
@@ -317,9 +355,27 @@ class C19(Engine):
                 console.append("write 0x%x %s" % (a, " ".join("0x%02x" % b for b in blob)))
                 expect.append(("write", (1, a, list(blob))))
                 touch(a * bpa, len(blob))
-                console.append("set pc=0x%x" % a)
-                expect.append(("none", None))
-                console.append("step")
+                if cpu == "mips":
+                    # the MIPS simulator has no settable pc register; the first asm block of a session moves the
+                    # PC to its origin, so an (empty-bodied) block at the instruction's address does it once
+                    if asm_seen[0]:
+                        console[:] = console[:mark]
+                        expect[:] = expect[:mark_e]
+                        continue
+                    asm_seen[0] = True
+                    console.append("asm 0x%x" % a)
+                    expect.append(("none", None))
+                    console.append("  nop")
+                    expect.append(("none", None))
+                    console.append("")
+                    expect.append(("none", None))
+                    console.append("write 0x%x %s" % (a, " ".join("0x%02x" % b for b in blob)))
+                    expect.append(("write", (1, a, list(blob))))
+                    console.append("step")
+                else:
+                    console.append("set pc=0x%x" % a)
+                    expect.append(("none", None))
+                    console.append("step")
                 expect.append(("simstep", (a, op["imm"], len(blob))))
             elif op["op"] == "bad":
                 console.append(op["line"])
@@ -341,6 +397,11 @@ class C19(Engine):
             hi_u = ((b + 1) << 8) // bpa
             console.append("print 0x%x-0x%x" % (lo_u, hi_u))
             expect.append(("sweep", (b << 8, (b + 1) << 8)))
+        if cpu == "msp430" and len(model_plan_addrs(plan, bpa)) < 20000:
+            # `disasm` without a range lists the whole image: every word it shows must be what is there,
+            # and every byte that was written must be shown
+            console.append("disasm")
+            expect.append(("disasm-all", None))
         console.append("quit")
         expect.append(("quit", None))
 
@@ -480,6 +541,24 @@ class C19(Engine):
                     res.probe("sweep_blocks")
                     if len(got) < 200:
                         res.viol("print:sweep-short:bpa%d" % bpa, cmd=console[idx], n=len(got))
+            elif kind == "disasm-all":
+                listed = {}
+                for mm in re.finditer(r"^0x([0-9a-f]+): 0x([0-9a-f]{4})", joined, re.M):
+                    listed[int(mm.group(1), 16)] = int(mm.group(2), 16)
+                res.probe("disasm_all_words", len(listed))
+                bad = None
+                for la, word in listed.items():
+                    want = model.get(la, 0) | (model.get(la + 1, 0) << 8)
+                    if word != want:
+                        bad = (la, word, want)
+                        break
+                if bad:
+                    res.viol("disasm:listed-word-differs:bpa%d" % bpa, addr="0x%x" % bad[0], got="%04x" % bad[1], want="%04x" % bad[2])
+                else:
+                    missing = [a for a in model if a not in listed and (a - 1) not in listed]
+                    if missing:
+                        res.viol("disasm:written-byte-not-listed:bpa%d" % bpa, addr="0x%x" % min(missing), n=len(missing),
+                                 listed_from="0x%x" % min(listed) if listed else None, listed_to="0x%x" % max(listed) if listed else None)
             elif kind == "blank":
                 if re.search(r"Wrote \d+ ", joined):
                     res.viol("blank-line:wrote-memory", after=payload, out=joined[:200])
